@@ -29,7 +29,7 @@ theorem redeem_success_needs_active_and_kills (s : MState) (q : RedeemReq) (a r 
       CodeDead (step s (.redeem q)).1.ss sig := by
   have hp := step_prog s (.redeem q) (redeemProg s.cfg s.now q) rfl
   rw [hp.2] at h
-  obtain ⟨sig, rec, client, hsig, hrec, hact, hex, _, _, _, _, _, _, _, _, _, hdead⟩ :=
+  obtain ⟨sig, rec, client, hsig, hrec, hact, hex, _, _, _, _, _, _, _, _, _, _, hdead⟩ :=
     (redeem_success {} plain_default.1 s.cfg s.now q { ss := s.ss } a r i e sc h).ex
   refine ⟨sig, rec, hsig, hex, hrec, hact, ?_⟩
   rw [hp.1]
